@@ -19,6 +19,7 @@ package c15
 
 import (
 	"encoding/json"
+	"errors"
 	"fmt"
 	"math/big"
 	"sort"
@@ -45,14 +46,15 @@ type Case struct {
 }
 
 type verdict struct {
-	key    string // "" = held
-	what   string
-	detail map[string]any
-	ood    string
-	digest string
-	rules  []string // normalisation rules that were needed
-	more   []string // further atomic change classes of a differ-only violation (one key each)
-	kinds  kinds
+	key          string // "" = held
+	what         string
+	detail       map[string]any
+	ood          string
+	digest       string
+	rules        []string // normalisation rules that were needed
+	inconclusive string   // leg (1) could not judge (the other legs did)
+	more         []string // further atomic change classes of a differ-only violation (one key each)
+	kinds        kinds
 }
 
 func init() {
@@ -132,7 +134,7 @@ func invalidType(d *dialect, tc TypeCase) string {
 		}
 		return 0, false
 	}
-	if tc.Src == "hcl" {
+	if tc.Src == "hcl" || tc.Src == "lit" {
 		sp := specByName(d, tc.Spec)
 		// interval fields take a precision of 0..6 only (postgres/convert.go reInterval: `(?:\(([0-6])\))?`).
 		if p, ok := arg("precision"); ok && sp != nil && sp.FromSpec != nil && p > 6 {
@@ -143,6 +145,9 @@ func invalidType(d *dialect, tc TypeCase) string {
 			return "invalid-type:bit-length-0"
 		}
 	}
+	if tc.Src == "parse" && (strings.HasPrefix(tc.Text, "bit(0)") || strings.HasPrefix(tc.Text, "bit varying(0)") || strings.HasPrefix(tc.Text, "varbit(0)")) {
+		return "invalid-type:bit-length-0"
+	}
 	return ""
 }
 
@@ -152,6 +157,9 @@ func typeLeg(d *dialect, cs *Case) verdict {
 		return verdict{ood: why}
 	}
 	t, err := buildType(d, tc, nil)
+	if err == errLitParam {
+		return verdict{ood: "lit-parameter-not-recorded-by-dialect"}
+	}
 	if err != nil {
 		return verdict{ood: "type-rejected-by-atlas"}
 	}
@@ -272,12 +280,12 @@ func shortType(gt string) string {
 // type one obtains from tc after removing a zero-valued positional parameter (and what follows it).
 func zeroAttrLost(d *dialect, tc TypeCase, got string) (string, bool) {
 	switch tc.Src {
-	case "hcl":
+	case "hcl", "lit":
 		for i, a := range tc.Args {
 			if a.I == nil || *a.I != 0 {
 				continue
 			}
-			cut := TypeCase{Src: "hcl", Spec: tc.Spec}
+			cut := TypeCase{Src: tc.Src, Spec: tc.Spec}
 			for j, b := range tc.Args {
 				if j < i || b.K == "unsigned" {
 					cut.Args = append(cut.Args, b)
@@ -410,6 +418,17 @@ func templateElement(cs *Case) string {
 	return ""
 }
 
+// reflexive reports whether the differ finds no change between two fresh builds of the case's schema.
+func reflexive(d *dialect, cs *Case) bool {
+	a, err1 := buildCase(cs, nil)
+	b, err2 := buildCase(cs, nil)
+	if err1 != nil || err2 != nil {
+		return false
+	}
+	ch, err := d.diff.SchemaDiff(a, b, schema.DiffNormalized())
+	return err == nil && len(ch) == 0
+}
+
 // buildCase returns a fresh graph of the case's schema: from the monitor's own spec, or (leg pool) from a
 // C02 pool model of harness/lib/dmodel, optionally after a recorded walk of catalogue edits.
 func buildCase(cs *Case, k kinds) (*schema.Schema, error) {
@@ -457,6 +476,9 @@ func schemaLeg1(d *dialect, cs *Case) verdict {
 	if err != nil {
 		if cs.Leg == "pool" {
 			panic(err)
+		}
+		if errors.Is(err, errLitParam) {
+			return verdict{ood: "lit-parameter-not-recorded-by-dialect"}
 		}
 		return verdict{ood: "type-rejected-by-atlas"}
 	}
@@ -518,6 +540,20 @@ func schemaLeg1(d *dialect, cs *Case) verdict {
 				// one key per attribute type of the delta (of the normalised sets).
 				pc := pathClass(path)
 				ns := strings.Split(attrDelta(a, b), ",")
+				if d.name == "mysql" {
+					// a charset/collation that is lost although the parent carries NO such attribute is one
+					// root cause (sqlx.Charset/Collate); every other loss is a different defect.
+					parent := "schema.attrs"
+					if i := strings.Index(path, ".column["); i >= 0 {
+						parent = path[:i] + ".attrs"
+					}
+					pl := lineAt(da.lines, parent)
+					for i, n := range ns {
+						if (n == "Charset" || n == "Collation") && !strings.Contains(pl, "*schema."+n+"{") {
+							ns[i] = n + ":parent-has-none"
+						}
+					}
+				}
 				descKey = fmt.Sprintf("C15|%s|desc|%s|%s", d.name, pc, ns[0])
 				for _, n := range ns[1:] {
 					v.more = append(v.more, fmt.Sprintf("C15|%s|desc|%s|%s", d.name, pc, n))
@@ -587,6 +623,13 @@ func schemaLeg1(d *dialect, cs *Case) verdict {
 		}
 		if bytesWhat != "" {
 			v.what += "; " + trunc(bytesWhat, 300)
+		}
+	case diffWhat != "" && !reflexive(d, cs):
+		// the differ reports changes between two fresh builds of s itself: leg (1) cannot judge this case.
+		v.inconclusive = "differ-not-reflexive-on-s"
+		if bytesWhat != "" {
+			v.key = fmt.Sprintf("C15|%s|bytes|%s", d.name, bytesClass(string(b1), string(b2), remErr))
+			v.what = bytesWhat
 		}
 	case diffWhat != "":
 		if len(names) == 0 {
@@ -738,11 +781,7 @@ func attrDelta(a, b string) string {
 		if i := strings.IndexByte(s, '{'); i >= 0 {
 			s = s[:i]
 		}
-		s = shortType(s)
-		if s == "Collation" {
-			s = "Charset" // one class: charset/collation
-		}
-		return s
+		return shortType(s)
 	}
 	for p := range ma {
 		if !mb[p] {
@@ -782,6 +821,13 @@ func bytesClass(a, b string, err error) string {
 				if len(f) >= 2 && f[1] == "=" {
 					if f[0] == "start" || f[0] == "increment" {
 						return "identity"
+					}
+					if f[0] == "type" && len(f) >= 3 {
+						t := f[2]
+						if i := strings.IndexAny(t, "(\""); i > 0 {
+							t = t[:i]
+						}
+						return "type:" + t
 					}
 					return f[0]
 				}
@@ -985,6 +1031,9 @@ func run(c *rt.Ctx) {
 			c.Count("rule:"+cs.Dialect+":"+r, 1)
 		}
 		c.Eval(v.digest, true)
+		if v.inconclusive != "" {
+			c.Count("leg1-inconclusive:"+cs.Dialect+":"+v.inconclusive, 1)
+		}
 		if v.key != "" {
 			c.Violation(v.key, v.what, cs, v.detail)
 			for _, m := range v.more {
